@@ -129,7 +129,7 @@ PROPS = {
                 "ServeIncoming and at the incoming callback, no overlap, no cross-talk; outbound whole/once/ordered by (return<invoke); distinct = distinct context-switch-sequence hash; "
                 "non-trivial = a preemption happened",
         "mandatory_probes": ["boundary_inside_checksum_tag", "boundary_inside_checksum_digits", "many_messages_one_read", "one_byte_reads", "multi_connection",
-                             "buffer_zero", "trailing_partial", "outbound_checked", "reader_stalled"],
+                             "buffer_zero", "trailing_partial", "outbound_checked", "reader_stalled", "partial_write_at_deadline", "torn_tail_after_write_deadline"],
         "assumptions": ASSUME,
     },
     "C05": {
@@ -169,7 +169,7 @@ PROPS = {
                 "the TestRequest or at a drawn time (incl. T-1ms) in the second period, steady traffic of mixed types with period <= N for 20-300 periods}; timeline oracle with "
                 "T = N + max(1,N/20): first TestRequest in [t0+T, t0+T+T/10], disconnect (peer EOF + notification) in [t1+T, t1+T+T/10], no disconnect within T of an answer, "
                 "zero TestRequests and disconnects under steady traffic; distinct = distinct context-switch-sequence hash; non-trivial = a preemption happened",
-        "mandatory_probes": ["testrequest_sent", "disconnected_for_silence", "answer_cancelled_disconnect", "steady_periods", "inbound_1ms_before_first_deadline"],
+        "mandatory_probes": ["testrequest_sent", "disconnected_for_silence", "answer_cancelled_disconnect", "second_cycle_checked", "steady_periods", "inbound_1ms_before_first_deadline"],
         "assumptions": ASSUME,
     },
     "C13": {
